@@ -186,6 +186,11 @@ def run_case(case, ctx):
             F32 = np.array(F, dtype=np.float32).reshape(-1, 2)
             check_val(ctx, "value-mixed-dtype", ctx.call(_p.heat, F32, farr(Gq), sigma=sigma), F, Gq, sigma, "float32 array vs float64 array")
             check_val(ctx, "value-mixed-dtype", ctx.call(_p.heat, farr(Gq), F32, sigma=sigma), Gq, F, sigma, "float64 array vs float32 array")
+            # a third (annotation) column is not a coordinate: the kernel reads columns 0 and 1 only
+            if len(F) and len(G):
+                F3 = np.column_stack([farr(F), 7.0 + np.arange(len(F))])
+                G3 = np.column_stack([farr(G), -3.0 - 2.0 * np.arange(len(G))])
+                check_val(ctx, "value-extra-column", ctx.call(_p.heat, F3, G3, sigma=sigma), F, G, sigma, "(n,3) arrays")
             # integer-typed arrays: large values (squares beyond the integer range) and unsigned dtypes
             # (differences wrap around) must give the value of the equal float diagrams
             for dt, kk in ((np.int64, 4 * 10 ** 9), (np.int32, 50000), (np.int16, 200), (np.uint8, 60), (np.uint16, 1), (np.uint8, 85), (np.int16, 10900), (np.int8, 42)):
